@@ -44,6 +44,8 @@ STORED_EQ = [
     "Is(1)", "[Is(1), 2]", "[1, Is(2)]", "{'a': Is(1), 'b': 2}", "(Is(1),)", "[[Is(1)], 2]", "DC(x=Is(1))", "[f'a{1}', 2]",
     "snapshot(1)", "[snapshot(1), 2]", "[1, snapshot(2)]", "{'a': snapshot(1), 'b': 2}", "[[snapshot(1)], 2]", "[Is(1), snapshot(2)]",
 ]
+CROSS = [("DC(x=1)", ["DCO(p=1)", "NTO(p=1, q=2)", "DCO(1, 2)"]), ("NT(a=1, b=2)", ["NTO(p=1, q=2)", "NTO(1, 2)", "DCO(p=1)", "(1, 2)"]), ("AT(a=1, b=2)", ["ATO(p=1, q=2)", "DCO(p=1, q=2)"]),
+         ("[DC(x=1), 0]", ["[DCO(p=1), 0]", "[NTO(1, 2), 0]"]), ("{'k': NT(a=1, b=2)}", ["{'k': NTO(p=1, q=2)}", "{'k': (1, 2)}"]), ("DC(x=NT(a=1, b=2))", ["DC(x=NTO(p=1, q=2))", "DCO(p=NT(a=1, b=2))"])]
 STORED_IN = ["[0]", "[0, 1]", "[0, 'a', None]", "['a', 'b']", "[[0], (1,)]", "[]", "[DC(x=1), 0]", "[Is(1), 2]", "[1.5, 'x']"]
 STORED_GET = ["{'a': 0}", "{'a': 0, 'b': [1]}", "{'a': {'b': 0}, 'c': 1}", "{0: 'x', (1, 2): 'y'}", "{'a': [0, 1]}", "{'a': DC(x=1)}",
               "{'a': Is(1), 'b': 2}", "{KEYNAME: 'x', 'age': 3}", "{'age': 3, KEYNAME: 'x'}", "{Color.RED: 1, 'b': 2}", "{(KEYNAME, 1): 0, 'z': [1]}"]
@@ -131,6 +133,12 @@ def _cases(tier):
         for n in range(1, k + 1):
             for seq in itertools.product(nb, repeat=n):
                 for op in ("==", "==r") + (("!=",) if n == 1 else ()):
+                    cases.append({"v": v, "op": op, "xs": list(seq)})
+    # stored constructor call compared with a value of another class of the same kind (other field names, positional spelling)
+    for v, others in CROSS:
+        for n in range(1, k + 1):
+            for seq in itertools.product(others + [v.replace("snapshot(", "(")], repeat=n):
+                for op in ("==", "==r"):
                     cases.append({"v": v, "op": op, "xs": list(seq)})
     for kind, vals in ORDERED.items():
         for v in vals:
